@@ -481,6 +481,9 @@ func (c *checker) run(kind, feature, eng string, idx bleve.Index, req *bleve.Sea
 	c.r.Eval(1)
 	if timing {
 		c.r.Count("timing_ms:"+kind+":"+eng, time.Since(t0).Milliseconds())
+		if d, ok := rep["distance"]; ok {
+			c.r.Count(fmt.Sprintf("timing_ms:%s:%s:%v:polar=%v", kind, eng, d, math.Abs(rep["lat"].(float64)) > 89), time.Since(t0).Milliseconds())
+		}
 	}
 	if pv != nil {
 		c.r.Violation(fmt.Sprintf("%s:panic:%s:%s", kind, eng, feature), fmt.Sprintf("%v: panic %v @ %s", rep, pv, mc.TrimStack(st)), rep)
